@@ -28,6 +28,8 @@ func main() {
 		os.Exit(replay(os.Args[2]))
 	case "fs-child":
 		os.Exit(checks.FsChild(os.Args[2:]))
+	case "race-child":
+		os.Exit(checks.RaceChild(os.Args[2:]))
 	}
 	os.Exit(2)
 }
